@@ -336,6 +336,31 @@ def run_case(spec, j):
                       fp_map(api._fitted_state(e2)))
     j.check('C18.pickle-bitwise', same and not changed,
             dict(det0, changed=changed))
+  if name in ('NCA', 'MLKR', 'LMNN'):
+    # random_state must reach every randomised step: on data large and wide
+    # enough, the PCA initialisation uses a randomized solver
+    n_, d_ = int(rng.randint(510, 540)), int(rng.randint(56, 66))
+    yl = rng.randint(0, 4, size=n_)
+    Xl = rng.randn(n_, d_) + rng.randn(4, d_)[yl] * 2.0
+    argsl = (Xl, Xl[:, 0] + 0.1 * rng.randn(n_)) if name == 'MLKR' \
+        else (Xl, yl)
+    pl = dict(init='pca', n_components=5, max_iter=2, random_state=7)
+    if name == 'LMNN':
+      pl.update(n_neighbors=2, learn_rate=1e-6)
+    e1 = cls(**pl)
+    e2 = clone(e1)
+    with Quiet():
+      try:
+        e1.fit(*argsl)
+        e2.fit(*argsl)
+        M1, M2 = e1.get_mahalanobis_matrix(), e2.get_mahalanobis_matrix()
+        j.close('C18.clone-same-model', M2, M1,
+                1e-9 * max(np.abs(M1).max(), 1e-300),
+                dict(det0, params=pl, data='%dx%d' % (n_, d_)))
+      except Exception as ex:
+        j.violated('C18.clone-same-model',
+                   dict(det0, params=pl, raised=repr(ex)[:200]),
+                   mechanism='large-data-fit-raised')
   if j.sample is None:
     j.sample = dict(est=name, parameters=params,
                     aliases=sorted(ALIASES))
